@@ -2,11 +2,11 @@
 (* Behaviour generator: every behaviour of the session machine up to MaxLists lists, with its event history,
    emitted as one JSON line when it is complete - replayed call by call on the real class (spec -> code). *)
 EXTENDS LoDSMEvents, TLC, Json
-CONSTANTS MaxLists, MaxItems
+CONSTANTS MaxLists, MaxItems, PreEvents      \* PreEvents: which optional calls may precede an event ("" = none)
 VARIABLES st, hist
 Init == st = InitSt /\ hist = <<>>
 Next == /\ Len(st.lists) < MaxLists /\ Len(st.items) <= MaxItems
-        /\ \E e \in EventsOf(st), rd \in {"", "keys", "pluck", "poke"} :
+        /\ \E e \in EventsOf(st), rd \in PreEvents :
               \* optionally a reader is called on the receiver first (readers do not change the state: at most one per event)
               /\ LET pre == [x |-> e.x, o |-> 0, a |-> IF rd = "keys" THEN [op |-> "keys"]
                                                        ELSE IF rd = "pluck" THEN [op |-> "pluck", k |-> "b"]
